@@ -735,7 +735,7 @@ class Gen:
         with warnings.catch_warnings():
             warnings.simplefilter("ignore")
             m = build({"p": p}, {"q": q2, "q1": q})
-        res = inline(m)(v)
+        res = inline(m)(p=v) if rng.random() < 0.5 else inline(m)(v)
         for name, r in res.items():
             self.add(r, "inline", f"inline[{k1};{k2}]({v.type}).{name}")
         return None
@@ -831,6 +831,128 @@ def run_program(case: dict, sizes, max_inst: int, extra_feeds=()) -> dict:
         "body_vars_exposed": g.body_exposed, "text": "; ".join(g.text), "load_error": st.get("load_error"),
         "runtime_disagreements": st.get("runtime_disagreements", 0), "disagreement_samples": st.get("disagreement_samples", []),
     }
+
+
+# ----------------------------------------------------------------------------- inline call forms
+def ty_compatible(a: dict, d: dict) -> bool:
+    """The statement's compatibility (what `inline` checks): same element type; unknown rank or
+    dimension matches anything."""
+    if a["e"] != d["e"]:
+        return False
+    if a["s"] is None or d["s"] is None:
+        return True
+    return len(a["s"]) == len(d["s"]) and all(
+        not isinstance(x, int) or not isinstance(y, int) or x == y for x, y in zip(a["s"], d["s"]))
+
+
+def ty_refines(a: dict, d: dict) -> bool:
+    """Every value of type `a` is a value of type `d`."""
+    if a["e"] != d["e"]:
+        return False
+    if d["s"] is None:
+        return True
+    if a["s"] is None or len(a["s"]) != len(d["s"]):
+        return False
+    return all(not isinstance(y, int) or x == y for x, y in zip(a["s"], d["s"]))
+
+
+_F3, _F23 = {"e": "f32", "s": [3]}, {"e": "f32", "s": [2, 3]}
+INLINE_CASES = []
+for _decl, _argsets in [
+    ([_F3, _F3], [[_F3, _F3], [{"e": "f32", "s": ["N"]}, _F3], [{"e": "f32", "s": [None]}, _F3], [{"e": "f32", "s": [5]}, _F3],
+                  [_F23, _F3], [{"e": "f32", "s": [0]}, _F3], [_F3, {"e": "f32", "s": [5]}]]),
+    ([{"e": "f32", "s": ["B", 3]}, _F3], [[{"e": "f32", "s": ["N", 3]}, _F3], [{"e": "f32", "s": [4, 3]}, _F3],
+                                          [{"e": "f32", "s": ["N", None]}, _F3], [{"e": "f32", "s": ["N", 2]}, _F3]]),
+]:
+    for _a in _argsets:
+        for _form in ("positional", "keyword", "mixed"):
+            INLINE_CASES.append({"decl": _decl, "args": _a, "form": _form})
+
+
+def run_inline_case(case: dict, rng, sizes, max_inst: int, extra_feeds=()) -> dict:
+    """`inline(m)` of a two-input model (y = x + w, z = Concat(x, x) on the last axis) called
+    positionally / by keyword / mixed with arguments of the given types. An argument whose type is
+    incompatible with the declared input type must be refused with TypeError at the call; whenever the
+    call returns, every result is run and judged."""
+    import spox.opset.ai.onnx.v17 as op
+    from spox import argument, build, inline
+
+    with warnings.catch_warnings():
+        warnings.simplefilter("ignore")
+        p, q = (argument(L.ty_from_json(t)) for t in case["decl"])
+        m = build({"x": p, "w": q}, {"y": op.add(p, q), "z": op.concat([p, p], axis=-1)})
+        args = make_args({"a": L.ty_from_json(case["args"][0]), "b": L.ty_from_json(case["args"][1])})
+        a, b = args["a"], args["b"]
+        try:
+            if case["form"] == "positional":
+                res = inline(m)(a, b)
+            elif case["form"] == "keyword":
+                res = inline(m)(w=b, x=a)
+            else:
+                res = inline(m)(a, w=b)
+        except Exception as e:  # noqa: BLE001
+            return {"rejected": True, "error": type(e).__name__, "runs": 0, "refused": 0, "checked": 0, "fails": []}
+        outs = list(res.values())
+        outs = outs + [op.identity(o) for o in outs]
+    decl = [{"e": t["e"], "s": None if t["s"] is None else [d if isinstance(d, int) else None for d in t["s"]]} for t in case["decl"]]
+    compatible = all(ty_compatible(x, d) for x, d in zip(case["args"], decl))
+    weaker = compatible and not all(ty_refines(x, d) for x, d in zip(case["args"], decl))
+    st = observe(args, outs, rng, sizes, max_inst, extra_feeds=extra_feeds)
+    for f in st["fails"]:
+        kind = f["key"].split(":")[2] if f["key"].count(":") >= 3 else "?"
+        if weaker and kind != "dtype":
+            f["key"] = "Inline:result:shape:argument-weaker-than-declared"
+        else:
+            f["key"] = f"Inline:result:{kind}:" + ("argument-incompatible-but-accepted" if not compatible else "unexplained")
+        f["what"] = f"inline(m: {[str(L.ty_from_json(t)) for t in case['decl']]})({case['form']}; {[str(L.ty_from_json(t)) for t in case['args']]}): " + f["what"]
+    seen, uniq = set(), []
+    for f in st["fails"]:
+        if f["key"] not in seen:
+            seen.add(f["key"])
+            uniq.append(f)
+    st["fails"] = uniq
+    st["compatible"] = compatible
+    return st
+
+
+# ----------------------------------------------------------------------------- Function subclasses with attributes
+def _attr_function_classes():
+    from harness import lib_c06fun
+
+    return lib_c06fun.attr_function_classes()
+
+
+ATTRFUN_CASES = [
+    {"fun": "twice", "in": {"e": "f32", "s": [2, 3]}, "values": [0, 1]},
+    {"fun": "twice", "in": {"e": "f32", "s": [2, 3]}, "values": [1, 0, -1]},
+    {"fun": "twice", "in": {"e": "f32", "s": ["N", 3]}, "values": [0, 1]},
+    {"fun": "argmax_axis", "in": {"e": "f32", "s": [2, 3, 4]}, "values": [0, 2, 1]},
+    {"fun": "cast_to", "in": {"e": "f32", "s": [2]}, "values": ["f32", "i64", "f64"]},
+    {"fun": "keepdims", "in": {"e": "f32", "s": [2, 3]}, "values": [1, 0]},
+    {"fun": "keepdims", "in": {"e": "f32", "s": [2, 3]}, "values": [0, 1]},
+    {"fun": "flatten", "in": {"e": "f32", "s": [2, 3, 4]}, "values": [1, 2, 0]},
+]
+
+
+def run_attr_function(case: dict, rng, sizes, max_inst: int, extra_feeds=()) -> dict:
+    """One attribute-carrying Function applied several times in a row to the same input with
+    different attribute values (a history: what an earlier application computed must not leak into a
+    later one); every result and a value computed from it are exposed."""
+    import spox.opset.ai.onnx.v17 as op
+
+    try:
+        with warnings.catch_warnings():
+            warnings.simplefilter("ignore")
+            apply = _attr_function_classes()[case["fun"]]
+            args = make_args({"x": L.ty_from_json(case["in"])})
+            outs = []
+            for v in case["values"]:
+                val = np.dtype(L.ELEM[v]) if case["fun"] == "cast_to" else v
+                y = apply(args["x"], val)
+                outs += [y, op.identity(y)]
+    except Exception as e:  # noqa: BLE001
+        return {"rejected": True, "error": f"{type(e).__name__}: {str(e)[:200]}", "runs": 0, "refused": 0, "checked": 0, "fails": []}
+    return observe(args, outs, rng, sizes, max_inst, extra_feeds=extra_feeds)
 
 
 # ----------------------------------------------------------------------------- conflicting function bodies
